@@ -161,6 +161,15 @@ def schema_argument(rng, *, modal=False, quant=False, ident=False, depth=2):
         lambda: ([box(A), box(box(A)), dia(B)], C),
         lambda: ([box(A), A, dia(neg(B))], box(B)),
     ]
+    # several universal-type premises, later ones mentioning constants the earlier ones have not seen (the per-node
+    # bookkeeping of which constants a quantified node still has to be instantiated with)
+    multi_quant = [
+        lambda: ([Quantified(U, X, P1(X)), Quantified(U, X, b2(cond, P1(c), P2(X)))], P2(c2)),
+        lambda: ([Quantified(U, X, R2(X, c)), Quantified(U, X, b2(cond, R2(X, c2), P1(X)))], P1(c)),
+        lambda: ([Quantified(U, X, b2(cond, P1(X), P2(X))), Quantified(U, X, b2(cond, P2(X), R2(X, c)))], b2(cond, P1(c2), R2(c2, c))),
+        lambda: ([neg(Quantified(E, X, P1(X))), neg(Quantified(E, X, b2(O.Conjunction, P2(X), neg(P1(c)))))], neg(P2(c2))),
+        lambda: ([Quantified(U, X, P1(X)), Quantified(E, X, P2(X)), Quantified(U, X, b2(cond, P2(X), R2(X, c)))], Quantified(E, X, R2(X, c))),
+    ]
     redundant_quant = [
         lambda: ([Quantified(U, X, P1(X)), P1(c)], B),
         lambda: ([Quantified(U, X, P1(X)), Quantified(E, X, P1(X))], P2(c2)),
@@ -196,7 +205,7 @@ def schema_argument(rng, *, modal=False, quant=False, ident=False, depth=2):
     if modal:
         pool += modals * 2 + redundant_modal * 2
     if quant:
-        pool += redundant_quant
+        pool += redundant_quant + multi_quant * 2
     if quant:
         pool += quants * 2
     if modal and quant:
